@@ -140,6 +140,13 @@ Theorem C14_interact_table : forall it d, dist_sample it d = spec_sample it d.
 Proof. exact interact_table. Qed.
 Print Assumptions C14_interact_table.
 
+(* ---- a probabilistic sequence samples iff some sample key of its final module is not produced by the modules before it
+   (ProbabilisticTensorDictSequential._requires_sample; compared with the real attribute on every generated sequence) *)
+Theorem C14_requires_sample : forall ks up,
+  requires_sample (Some ks) up = true <-> exists k, List.In k ks /\ ~ List.In k up.
+Proof. exact requires_sample_spec. Qed.
+Print Assumptions C14_requires_sample.
+
 (* ---- non-vacuity *)
 Definition ex_graph : node :=
   Seq {| sinpl := Some IFalse; ssel := Some [kc]; spt := false; sdict := false |}
@@ -174,3 +181,5 @@ Example C14_ex_slice : regular ex_chain = true /\ no_sink_in ex_chain = true /\ 
   /\ select_sub (depth ex_chain + 1) ex_chain None (Some [kc])
      = SOk (Seq dcfg [Leaf (mk 1 [ka] [kb]); Seq dcfg [Leaf (mk 2 [kb] [kc])]]).
 Proof. repeat split. Qed.
+Example C14_ex_requires_sample : requires_sample (Some [ka; kb]) [ka; kz] = true /\ requires_sample (Some [ka; kb]) [kb; ka] = false.
+Proof. split; reflexivity. Qed.
